@@ -44,6 +44,8 @@ type Options struct {
 	Tag string
 }
 
+var optionFile = regexp.MustCompile(`^e\d+\.thrift$`)
+
 // Prepare renders the universe, runs the real generator from /repo's tree on
 // it, builds the driver binary in a scratch module and points the supervisor
 // at it. It returns the build report (also stored in args as JSON).
@@ -80,6 +82,9 @@ func Prepare(s *ev.S, opt Options) (*BuildReport, error) {
 				return
 			}
 			o := &gen.Options{OutputDir: filepath.Join(mod, "gen"), PackagePrefix: "cellsmod/gen", ThriftRoot: thrift, NoRecurse: true, NoVersionCheck: true}
+			if optionFile.MatchString(f.Path) {
+				o.EnumTextMarshalStrict = true // the e<k>.thrift copies of the universe
+			}
 			if opt.GenOptions != nil {
 				opt.GenOptions(f.Path, o)
 			}
